@@ -30,9 +30,10 @@ func init() {
 	})
 }
 
-func c06Profile(flagCount uint32, single bool) app.Profile {
+func c06Profile(flagCount uint32, single bool, pool bool) app.Profile {
 	return app.Profile{
-		MaxNodes: 6, MaxExt: 4, FlagCount: flagCount,
+		PoolFlags: pool,
+		MaxNodes:  6, MaxExt: 4, FlagCount: flagCount,
 		Menus: true, Sinks: false,
 		Catch: true, Croak: true, ExtFlags: true, ExtReserved: true, ExtTerminate: true,
 		ExtErrPct: 3, EmptyPct: 3,
@@ -77,9 +78,13 @@ func runC06(c *core.Ctx) *core.Outcome {
 	cfg.CacheSize = 0
 	cfg.OutputSize = 0
 	cfg.FlagCount = uint32([]int{1, 3, 8, 9, 0, 40, 250, 300, 1000, 2100}[t.Int(10)])
+	if t.Chance(1, 20) {
+		cfg.FlagCount = 66000 // indices that need three bytes in the bytecode, a flag field of more than 8 KiB
+		o.Probes["flag_indices_beyond_16_bits"]++
+	}
 	cfg.First = t.Chance(1, 3)
 	cfg.ResetOnEmpty = t.Chance(1, 5) // only exercised while the session is blocked: the model does not know the option
-	a := app.Generate(t, c06Profile(cfg.FlagCount, t.Chance(3, 4)))
+	a := app.Generate(t, c06Profile(cfg.FlagCount, t.Chance(3, 4), cfg.FlagCount > 16 && t.Chance(3, 4)))
 	if err := a.Validate(); err != nil {
 		panic("generator produced ill-formed app: " + err.Error())
 	}
